@@ -16,6 +16,22 @@ META = {
     "C12": {"rule": LFO_RULE, "assumptions": COMMON + ["ulp in the sine bound is taken at magnitude 1 (2^-23)"]},
 }
 
+ADSR_RULE = ("directed scenarios (17 (fs,T) pairs incl. T*fs<=1, =1, just above 1; gate events at every offset class of every phase; sustain and times moved in mid-phase), "
+             "seeded random histories (whole cycles, retrigger/release storms, parameter modulation, sub-sample phases, gate floods) and slow phases ticked through completely (up to 20 s at 192 kHz); "
+             "every tick is observed through value() and the verif-hooks accessors. distinct_nontrivial = distinct (event kind, phase before, phase after / table-cell octile, decade of T*fs, start-level octile) classes observed")
+MIDI_RULE = ("byte-at-a-time histories on the real receiver compared after every byte with an independent MIDI 1.0 framer + receiver specification; "
+             "distinct_nontrivial = distinct (reference decoder state x byte class), (message effect x held-count bucket x priority x retrigger) and (poll kind x latch x gate) classes observed")
+
+META.update({
+    "C01": {"rule": ADSR_RULE, "assumptions": COMMON + ["phase and counter position come from the read-only hooks Adsr::verif_state()/verif_phase_bits()", "the documented RC curves are the generator's formulas of non_rust_utils/lookup_table_gen.py evaluated in f64", "monotonicity allows 4 ulp (4.8e-7) of f32 rounding; the largest dip observed is reported under monitored_maxima"]},
+    "C02": {"rule": ADSR_RULE, "assumptions": COMMON + ["phase read through Adsr::verif_state()", "per-tick progress x=1/(T*fs) is integrated as an interval [x(1-2^-22)-2^-24, x(1+2^-22)]: early = ended with upper bound < 1, late = not ended with lower bound >= 1", "all four inputs are set before the first gate event (power-on parameter values are not part of the property)"]},
+    "C03": {"rule": ADSR_RULE, "assumptions": COMMON + ["slope bound 1.005*S*c*x*(1+2^-22)+|ds|+4ulp with S=1.81062 (attack), 4.07463 (decay/release), c the span of the segment, x the fraction of the phase one tick covers"]},
+    "C04": {"rule": MIDI_RULE + "; workload: note-on / note-off / velocity-0 / All Notes Off on the listened channel, pools of 1..128 notes, explicit and running status, priority and retrigger switched at random, at most 32 outstanding note-ons", "assumptions": COMMON + ["histories are cut before a 33rd outstanding note-on (the property is stated up to 32)", "CC 123 is All Notes Off for any value byte"]},
+    "C05": {"rule": MIDI_RULE + "; workload: the C04 streams with edge polls interleaved (sparse at several rates, and strict = both edges after every message)", "assumptions": COMMON + ["edge getters are polled on implementation and reference at the same instant"]},
+    "C06": {"rule": MIDI_RULE + "; workload: 18 well-formed base streams x every split point x 16 channels with real-time bytes inserted, random insertions, and unstructured byte streams in four styles (uniform, status-heavy, data-heavy running status, own-channel with system bytes)", "assumptions": COMMON + ["pitch-bend scaling is taken from a table read from a fresh receiver (the scaling itself is judged by C18); framing decides which bytes form the value", "histories are cut before a 33rd outstanding note-on", "0xF9/0xFD are treated as real-time (transparent), 0xF4/0xF5 as system common (cancel running status)"]},
+    "C18": {"rule": MIDI_RULE + "; workload: 16 channels x 128 controllers x 128 values (explicit + running status, listened + foreign channel), all 16384 pitch-bend values ascending/descending, scaling tables, and controllers interleaved with note traffic", "assumptions": COMMON + ["power-on defaults are read from a freshly constructed receiver at run time"]},
+})
+
 ENGINES = {}
 
 HOOK_COMMITS = ["6c4927e"]
@@ -28,6 +44,27 @@ E1 = "E1 native monitored harness"
 NOTE = "trusted: rustc/cargo, the harness' reference models (written from the property text), IEEE f32 on x86-64; only driven executions are decided"
 
 MANIFEST_TEXT = {
+    "C01": _t(E1, "runtime monitor (range/monotone/end-level/curve-fidelity assertions on hooked state) over directed + random gate/tick/set_input histories",
+              "Every tick of every history is checked on the real Adsr: 0<=v<=1, monotone per phase, exact 1.0 / sustain / 0.0 at the phase ends, and |v - RC curve| <= 0.005 with the phase and counter position read through the hooks. Held on ~5*10^7 (quick) to ~10^10 (thorough) observed ticks covering every (phase x event) pair, start levels and T*fs from 0.1 to 3.84*10^6.",
+              NOTE + "; hooks Adsr::verif_state/verif_phase_bits", "DESIGN.md 4 (C01)"),
+    "C02": _t(E1, "online trace checker: reference phase state machine + interval integration of phase progress",
+              "The hooked phase must equal an independent state machine after every call; phase ends are bracketed by an interval integration of 1/(T*fs) per tick (never early, late only by counter resolution), which also decides hangs on logical steps.",
+              NOTE + "; hook Adsr::verif_state", "DESIGN.md 4 (C02)"),
+    "C03": _t(E1, "runtime monitor on adjacent-tick differences against the active curve's slope bound",
+              "For every pair of consecutive ticks |dv| is compared with the steepest slope of the active segment times the phase fraction per tick (+ sustain change); slow phases up to 20 s at 192 kHz are ticked through completely so a table-step staircase exceeds the bound by >10x.",
+              NOTE + "; hook Adsr::verif_state", "DESIGN.md 4 (C03)"),
+    "C04": _t(E1, "history + executable model: held-note list specification compared after every byte",
+              "Message histories (presses/releases in every order, duplicates, strays, All Notes Off, priority/retrigger switches, 16 channels) are fed byte by byte to the real receiver; gate/note/velocity must equal an independent held-note specification after every byte.",
+              NOTE, "DESIGN.md 4 (C04)"),
+    "C05": _t(E1, "history + executable model of the two edge latches with polls interleaved at arbitrary positions",
+              "Edge getters are polled at random and strict positions and compared with reference latches written from the property text; plus rising=>gate, falling=>!gate.",
+              NOTE, "DESIGN.md 4 (C05)"),
+    "C06": _t(E1, "differential monitor against an independent MIDI 1.0 framer after every byte; real-time insertion at every split point",
+              "All 11 plain getters are compared with the reference after every byte of structured and unstructured streams; a real-time byte is inserted at every split point of 18 base streams on all 16 channels; panics are caught with debug assertions live.",
+              NOTE, "DESIGN.md 4 (C06)"),
+    "C18": _t(E1, "exhaustive run-time enumeration of the controller table and pitch-bend values under the reference receiver",
+              "All 16x128x128 controller messages (listened and foreign channel) and all 16384 pitch-bend values per channel are sent to the real receiver and every getter compared with the reference; scaling endpoints exact, strictly increasing.",
+              NOTE, "DESIGN.md 4 (C18)"),
     "C10": _t(E1, "runtime monitor over an exhaustive run-time sweep of all 2^24 phases + random histories",
               "Every one of the 2^24 reachable phase-counter values is visited on the real Lfo and all five shapes are compared with an independent closed-form oracle (exact for saws/square/triangle, 0.0125 for the sine); random tick/set_frequency/set_phase/reset histories reach the same phases by other routes. Exhaustive for the per-phase clauses.",
               NOTE, "DESIGN.md 4 (C10)"),
